@@ -36,20 +36,28 @@ TEXTS = {
     "C08": {"engine": "sim", "design_ref": "DESIGN.md 3/C08", "technique": "stateful PBT over graphs x outcomes x fail-fast x completion order; verdict soundness oracle",
             "level_text": sim_text("of failure propagation (no dependent of a failed task runs, fail-fast stop, continue mode) and of the final job/task report against what actually ran."),
             "level_note": SIM_NOTE},
+    "C14": {"engine": "httpauth", "design_ref": "DESIGN.md 3/C14", "technique": "enumerate routes (chi.Walk) x generated invalid credentials x transports; no-effect and no-leak oracle",
+            "level_text": "Property-based enumeration: the route list comes from the router itself, every route/method/slash variant is probed with generated invalid credentials of 23 classes over 6 transports; the oracle is the status (401 on registered routes, never 2xx), absence of planted markers in the body and an unchanged runner state; positive controls with a valid token keep the oracle non-vacuous. A harness-side validity predicate excludes generated credentials that are in fact validly signed.",
+            "level_note": "Trusted: HMAC-SHA256 unforgeability, chi.Walk listing every registered route (verif-only hook server.Routes), Go 1.23.5, rapid v1.3.0. Search over credential shapes, not a proof of the JWT library."},
     "C15": {"engine": "sim", "design_ref": "DESIGN.md 3/C15", "technique": "stateful PBT, differential: listing flags vs. behaviour, Go API vs. HTTP view",
             "level_text": sim_text("that compares, at every quiescent point, schedulable/running flags with the outcome of the next request and the runner log, and the job list / detail JSON with the runner's state (order, timestamps, task order)."),
             "level_note": SIM_NOTE},
     "C16": {"engine": "sim", "design_ref": "DESIGN.md 3/C16", "technique": "stateful PBT with generated definition edits; snapshot differential per job",
             "level_text": sim_text("that keeps a deep copy of each job's pipeline at accept time and compares it with what the task runner is handed (tasks, commands, env, dependencies, delay) across reloads landing at any point of the job's life."),
             "level_note": SIM_NOTE},
+    "C17": {"engine": "inputs", "design_ref": "DESIGN.md 3/C17", "technique": "PBT: YAML round trip with an independent emitter, single-field corruptions vs. validity predicate, reflection-enumerated single edits vs. Equals",
+            "level_text": "Generated definition sets are written as YAML by the harness's own emitter over generated directory layouts and must load to exactly what they say (twice, under different enumeration orders); each single-field corruption must be rejected or yield a result satisfying an independently written validity predicate; for Equals every edit site is enumerated by reflection over the definition structs (unknown field kinds fail the check), and each single edit must make Equals false in both directions.",
+            "level_note": "Trusted: the harness's YAML emitter and deep-copy/mutator (checked: the mutator asserts that its edit changed the value); Go 1.23.5, rapid v1.3.0. A thorough-tier native fuzz target feeds raw YAML bytes."},
 }
 
 ENGINES = [
     {"name": "sim", "path": "harness/sim", "serves_properties": ["C01", "C02", "C03", "C04", "C05", "C06", "C07", "C08", "C15", "C16"],
      "kind_free_text": "controlled-schedule simulator: rapid state machine over the exported API of PipelineRunner with a harness-owned task runner, scheduler-loop hook and reference monitor"},
+    {"name": "inputs", "path": "harness/inputs", "serves_properties": ["C17"], "kind_free_text": "pure generated-input properties (rapid) and native fuzz targets"},
+    {"name": "httpauth", "path": "harness/httpauth", "serves_properties": ["C14"], "kind_free_text": "router walk + generated credentials against the server's http.Handler"},
 ]
 
 NOT_APPLICABLE = [
     {"property_id": p, "reason": "check not built yet in this round (planned engine in DESIGN.md); not claimed until it exists"}
-    for p in ["C09", "C10", "C11", "C12", "C13", "C14", "C17", "C18", "C19", "C20"]
+    for p in ["C09", "C10", "C11", "C12", "C13", "C18", "C19", "C20"]
 ]
